@@ -141,6 +141,14 @@ def run_census(prog, rep, which, rule):
                 n_tab += 1
                 rep.ob(rule, True, key, 'reviewed: ' + ent['reason'], s.loc(), sample='reviewed: ' + ent['reason'] if n_tab <= 6 else None)
                 continue
+            # same function, same kind of operation, operands computed from exactly the same inputs (fields, parameters, calls, named constants, in
+            # the same operand positions): the reviewed expression was rewritten (`if x == 0 {0} else {x - 1}` -> `x.saturating_sub(1)`)
+            lv = json.loads(json.dumps(census.site_leaves(body, s)))
+            same = [e2 for k2, e2 in table.items() if k2.split('|', 1)[0] == body.nkey and e2.get('leaves') == lv and any(len(x) > 1 and (x[1] or x[2] or x[3]) for x in lv[1:] if isinstance(x, list) and x and x[0] == 'val')]
+            if same:
+                n_tab += 1
+                rep.ob(rule, True, key, 'reviewed (same operation on the same inputs as a reviewed site of this function): ' + same[0]['reason'], s.loc())
+                continue
             moved = moved_into_helper(prog, body, s, table, anywhere)
             if moved:
                 n_tab += 1
